@@ -3,6 +3,7 @@
 package pub
 
 import (
+	"servitor/jtp"
 	"fmt"
 	"math/rand"
 	"net/url"
@@ -237,6 +238,7 @@ func TestVerifRequests(t *testing.T) {
 	defer verifConcurrentRequests(out, sim, in.Rounds)
 	defer verifDefaultPort(out, sim, rng)
 	defer verifRepeatVisits(out, sim)
+	defer verifFailedWrite(out, sim)
 	note := func(h *verifsim.Host, path string, extra string) *verifsim.Route {
 		body := fmt.Sprintf(`{"id":"https://%s%s","type":"Note","content":"x","published":"2024-01-01T00:00:00Z"%s}`, h.Addr, path, extra)
 		return &verifsim.Route{Raw: []byte("HTTP/1.0 200 OK\r\nContent-Type: application/activity+json\r\n\r\n" + body)}
@@ -366,4 +368,31 @@ func TestVerifRequests(t *testing.T) {
 			}
 		}
 	}
+}
+
+/* a request that cannot be written (the peer shakes hands and never reads, the address is a megabyte long) fails; the
+   request after it, to another host, is the one request for its own address and nothing else */
+func verifFailedWrite(out *verifkit.Trace, sim *verifsim.Sim) {
+	for round := 0; round < 3; round++ {
+		sim.Reset()
+		deaf, h2 := sim.Host("deaf"), sim.Host("h2")
+		deaf.Set("*handshake*", &verifsim.Route{Fault: "noread", Delay: 3 * time.Second})
+		after := fmt.Sprintf("/after%d", round)
+		h2.Set(after, &verifsim.Route{Raw: []byte("HTTP/1.0 200 OK\r\nContent-Type: application/activity+json\r\n\r\n" +
+			fmt.Sprintf(`{"id":"https://%s%s","type":"Note","content":"x"}`, h2.Addr, after))})
+		jtp.VerifSetTimeout(400 * time.Millisecond)
+		jtp.VerifSmallSendBuffer(true)
+		verifkit.Try(func() { FetchUserInput(deaf.URL("/big?pad=" + strings.Repeat("a", 1<<20))) })
+		jtp.VerifSmallSendBuffer(false)
+		jtp.VerifSetTimeout(3 * time.Second)
+		before := sim.ConnCount()
+		verifkit.Try(func() { FetchUserInput(h2.URL(after)) })
+		sim.Quiesce(2 * time.Second)
+		conns := sim.Conns()[before:]
+		out.Emit(verifkit.M{"ev": "case", "id": 400000 + round, "mode": 14, "desc": "a fetch after a request that could not be written", "conns": len(conns)})
+		for _, c := range conns {
+			out.Emit(verifsim.ConnEvent(c, h2.Addr, verifsim.AcceptActivity, after, ""))
+		}
+	}
+	jtp.VerifSetTimeout(3 * time.Second)
 }
